@@ -189,7 +189,13 @@ class Contracts:
                             return T.C(v)
                     return None
                 nm = name + " " + ", ".join(f"[{src}]={v}" for (src, _), v in zip(bexprs, vals))
-                out.append((nm.strip(), T.canonical(T.replace(c0, rep2)), T.canonical(T.replace(r0, rep2))))
+                def under(t, vals=vals):
+                    # the case assumption also decides what follows from it (x == 'bool' makes x == 'int' false)
+                    t = T.canonical(T.replace(t, rep2))
+                    for (src, e), v in zip(bexprs, vals):
+                        t = T._assume(t, T.canonical(e), v)
+                    return T.canon(t)
+                out.append((nm.strip(), under(c0), under(r0)))
         return out, cfi, rfi, meta
 
     def check(self, qualname, variant=None, pid=None):
